@@ -1,5 +1,5 @@
 """C04 — barriers on concurrent queues exclude and order like a writer lock."""
-from lanetrace import run_lane
+from lanetrace import run_lane, forced
 from props.C02 import replay
 
 META = {
@@ -7,7 +7,7 @@ META = {
             "(barrier_exclusion, also while width is reserved for a nested dispatch_apply), the barrier lock is never duplicated by lock transfer, and the width word equals "
             "exactly the units held + redirected items + the pending-barrier reservation in every reachable state. Every dq_state transition of a concurrent queue under "
             "mixed reader / barrier / sync / apply workloads is replayed through LaneW.step; exclusion and the two ordering clauses are evaluated on the stamps of the same runs.",
-    "note": "Partial: the ordering clauses (items submitted before / after a barrier) have no theorem yet; they are checked by the oracle (sampling). Interleaving model; "
+    "note": "Partial: the ordering clauses (items submitted before / after a barrier) have no theorem; they are checked by the oracle (sampling), and the first of them is false for a dispatch_barrier_sync on the fast path (known finding F15, shared with C02). Interleaving model; "
             "QoS / override bits are masked out of the comparison.",
     "technique": "Lean 4 proof (Owicki-Gries invariant with ghost unit holders) + replay of real atomic traces through the model's step function + stamp oracle",
 }
@@ -17,9 +17,11 @@ THEOREMS = ["C04.barrier_exclusion", "C04.barrier_owner_unique", "C04.width_acco
 
 def run(ctx):
     ctx.proof("DispatchVerif.Props.C04", THEOREMS)
-    ctx.assumptions += ["sequentially consistent interleaving model of the atomic operations", "priority / override bits of dq_state are not modelled"]
+    ctx.assumptions += ["sequentially consistent interleaving model of the atomic operations", "priority / override bits of dq_state are not modelled",
+                        "known finding F15: a dispatch_barrier_sync on the fast path can start before an asynchronous item whose submission had returned"]
     cfg = [(4, 400, 0), (8, 300, 0), (12, 200, 0)] if not ctx.thorough else [(4, 3000, 0), (8, 2500, 0), (12, 2000, 0), (16, 1500, 0), (3, 4000, 0)]
-    run_lane(ctx, cfg, what="c04")
+    run_lane(ctx, cfg, what="c04", order_property=True)
+    forced(ctx, "f15_sync_overtake", "F15", "lane:order:sync-fastpath-overtakes:forced-F15", "F15")
     ctx.cov["rule"] = ("tr_lane workloads on a serial and a concurrent queue: barrier / non-barrier async and sync items, async_and_wait, group_async, dispatch_apply on the queue, "
                        "suspend/resume; stamps checked for barrier overlap and both ordering clauses; every dq_state transition must be a step of LaneW. "
                        "distinct_nontrivial = transitions explained by the model")
